@@ -513,7 +513,7 @@ func (fx *FnExec) doAppend(st *State, cc *ssa.CallCommon, args []*Term, p token.
 func (fx *FnExec) bytesToStr(st *State, s *Term) *Term {
 	name, hs := fx.elemHeapName(tByte)
 	h := fx.heapGet(st, name, hs)
-	return MkStr(Select(h, SlcBase(s)), SlcOff(s), SlcLen(s))
+	return MkStr(Shl(Select(h, SlcBase(s)), SlcOff(s)), SlcLen(s))
 }
 
 func (fx *FnExec) doMakeSlice(st *State, x *ssa.MakeSlice) {
@@ -578,14 +578,7 @@ func (fx *FnExec) doConvert(st *State, x *ssa.Convert) {
 				name, hs := fx.elemHeapName(tByte)
 				r := fx.newRef(st)
 				var arr *Term
-				if off := StrOff(v); off.lit != nil && off.lit.Sign() == 0 {
-					arr = StrArr(v)
-				} else {
-					arr = fx.c.Fresh("bytes", SArrI)
-					k := Var("k!s", SInt)
-					sel := App("select", SInt, arr, k)
-					fx.c.Assume(Implies(st.guard, Forall([]*Term{k}, Implies(And(Le(IntLit(0), k), Lt(k, StrLen(v))), Eq(sel, StrAt(v, k))), sel)))
-				}
+				arr = StrArr(v)
 				fx.heapSet(st, name, Store(fx.heapGet(st, name, hs), r, arr))
 				fx.vals[x] = MkSlc(r, IntLit(0), StrLen(v), StrLen(v))
 				return
